@@ -90,6 +90,7 @@ void harness(void)
     {
         uint32_t step = 0, got = 0;
         uint8_t  t = 0, done = 0, srv_silent = 0, deviated = 0, lenient = 0;
+        uint32_t abort_tx0 = 0, over = 0;
         uint32_t acode = ND_U32();
         CO_ERR   e;
         ND_BUF(pay, SIZE + 8); ND_BUF(ubuf, BUFN);
@@ -111,7 +112,7 @@ void harness(void)
                   "segmented download announces the size");
         }
         /* ---- the server answers, one step per client frame ---- */
-        for (step = 0; step < (SIZE + 6) / 7 + 2; step++) {
+        for (step = 0; step < (SIZE + 6) / 7 + 2 + ((BEH == 7) ? 4 : 0); step++) {
             if (!done && !srv_silent && (cb_n == 0)) {
                 const CO_IF_FRM *q = &env_tx[env_tx_n - 1];          /* last client frame */
                 for (i = 0; i < 8; i++) { r[i] = 0; }
@@ -141,13 +142,20 @@ void harness(void)
                         CHECK((q->Data[0] & 0xEF) == 0x60 && ((q->Data[0] >> 4) & 1) == t, "upload segment request with alternating toggle bit");
                         r[0] = (uint8_t)((tb << 4) | ((7 - n) << 1) | ((got + n == SIZE) ? 1 : 0));
                         for (i = 0; i < 7; i++) { if (i < n) { r[1 + i] = pay[got + i]; } }
+                        if (BEH == 7) {
+                            /* BEH 7: the server never ends and keeps sending full segments beyond the announced size */
+                            r[0] = (uint8_t)(tb << 4);
+                            for (i = 0; i < 7; i++) { r[1 + i] = pay[(got + i) % (SIZE + 8)]; }
+                            n = 7; over += 7;
+                            if (over > SIZE) { lenient = 1; }
+                        }
                         if ((BEH == 6) && (got + n == SIZE) && (n < 7)) {
                             /* BEH 6: the last segment claims 7 data bytes although fewer remain */
                             r[0] = (uint8_t)((tb << 4) | 1);
                             for (i = 0; i < 7; i++) { r[1 + i] = pay[got + i]; }
                             lenient = 1;
                         }
-                        if (tb != t) { deviated = 1; } else { got += n; t ^= 1; if (got == SIZE) { done = 1; } }
+                        if (tb != t) { deviated = 1; } else if (BEH == 7) { t ^= 1; if (got + 7 <= SIZE) { got += 7; } if (over >= SIZE + 21) { done = 1; } } else { got += n; t ^= 1; if (got == SIZE) { done = 1; } }
                     }
                 } else {
                     if (SIZE <= 4) {
@@ -170,9 +178,10 @@ void harness(void)
                         if ((tb != t) && (got != SIZE)) { deviated = 1; } else { t ^= 1; if (got == SIZE) { done = 1; } }
                     }
                 }
-                if (!srv_silent) { srv_send(r); }
+                if (!srv_silent) { abort_tx0 = env_tx_n; srv_send(r); }
             }
         }
+        if ((BEH == 7) && (cb_n == 0)) { srv_silent = 1; }      /* the endless server finally goes silent: the time-out ends the transfer */
         if (srv_silent) {
             /* ---- time-out ---- */
             uint32_t n0 = env_tx_n;
@@ -182,6 +191,7 @@ void harness(void)
                   env_tx[n0].Data[6] == 0x04 && env_tx[n0].Data[7] == 0x05, "abort frame 0504 0000h on the bus");
         } else if ((BEH == 1) && deviated) {
             CHECK(cb_n == 1 && cb_code == acode, "server abort reported once with the server's code");
+            CHECK(env_tx_n == abort_tx0, "a server abort is not answered with another frame");
         } else if (lenient) {
             /* oversized final segment: ended exactly once; whether the surplus is cut off or reported is not constrained */
             CHECK(cb_n == 1, "transfer with an oversized final segment ends exactly once");
